@@ -6,15 +6,15 @@ CONSTANTS
   TDiscWait = 5
   TDiscResp = 10
   TCall = 10
-  Configs <- ConnectConfigs
-  MaxEnv = 7
-  MaxFaults = 2
-  Msgs <- ConnectMsgs
+  Configs <- CallConfigs
+  MaxEnv = 3
+  MaxFaults = 1
+  Msgs <- CallMsgs
   MaxChunk = 2
-  UseCalls = FALSE
+  UseCalls = TRUE
   UseSubs = FALSE
   GenMode = FALSE
-  StartConnected = FALSE
+  StartConnected = TRUE
   Grid = 0
   TrackKA = FALSE
   SubKinds = {"A"}
@@ -22,15 +22,13 @@ SPECIFICATION MCSpec
 VIEW mcview
 CONSTRAINT Horizon
 INVARIANT ConnectedFlag
-INVARIANT SessionOnlyIfCompatible
-INVARIANT FailedConnectClosedNoStop
-INVARIANT StopAtMostOnce
-INVARIANT StopOnlyIfConnected
-INVARIANT StopWhenClosedAfterConnected
+INVARIANT CallResultExact
+INVARIANT CallLeavesNothing
+INVARIANT CallTimeoutExact
 INVARIANT Released
 INVARIANT ReleasedAtRest
 INVARIANT ClassifiedErrors
-PROPERTY ForwardOnly
+INVARIANT StopAtMostOnce
 PROPERTY ClosedFinal
 PROPERTY Silent
 CHECK_DEADLOCK FALSE
